@@ -19,10 +19,15 @@ written and the required design selected by `Fixed`).
 Callers are interchangeable in the spec; the quick tier runs one representative per renaming class (callers renamed in
 order of their first `start`), the thorough tier runs every schedule, on a current-thread and on a multi-thread runtime.
 
-Mutation self-test (recorded 2026-09-22): with proposed_fixes/C41.diff applied the check passes with no finding; on
-top of it, re-adding `if self.is_shutdown() { return Ok(()); }` at the top of `Router::shutdown`
-(/var/tmp/c41-mut.diff) gives VIOLATION (second concurrent caller returns with handlersDone = FALSE); undone -> exit 0.
+Fix and mutation self-test (2026-09-22), run in a private mirror (/var/tmp/rt-iso: `git archive HEAD` of /repo + a copy
+of /verif whose harness path-depends on it; builds took 5-25 min on the loaded machine, too long to keep /repo
+changed): with proposed_fixes/C41.diff applied the quick check passes with 0 known-finding hits; with the finding's
+status set to "fixed" and /var/tmp/c41-mut.diff on top (re-adds `if self.is_shutdown() { return Ok(()); }`) the check
+prints VIOLATION (second concurrent caller returns from its first poll with handlersDone=False); undone -> exit 0.
 On the pinned tree the same observation is the known finding C41_second_shutdown_returns_early.
+
+Thorough tier additionally: 4 callers model-checked, every schedule on both runtimes, and the growth specification
+RouterLifecycle.tla (connections in flight during shutdown) with its own driver (`vh_router life`), see lifecycle().
 """
 import json
 
@@ -110,13 +115,84 @@ def judge(sched, expected, aswritten, obs):
     return out
 
 
+LIFE_ACTIONS = ["Dial", "LoopAccept", "HandlerStart", "HandlerFinish", "Shutdown", "LoopCancel", "HandlersDown",
+                "CancelAccepts", "AcceptDropped", "EpClose", "Exit", "Return"]
+
+
+def lifecycle(ctx):
+    """Growth (thorough tier): specs/router/RouterLifecycle.tla — connections in flight while the router shuts down.
+    TLC checks the extended model (accept futures aborted only after the handlers' shutdown, nothing dispatched once
+    the loop stopped, shutdown() returns with no accept future alive) and refutes the abort-first ordering; every
+    drivable schedule is executed by `vh_router life`.  What a shutdown() caller sees at return is C41 and is
+    reported as such; a deviation in the additional observables is non-conformance with the extended specification
+    (tool error), not a C41 violation."""
+    k3 = '{"k1", "k2", "k3"}'
+    ctx.tlc("router", "RouterLifecycle", constants={"Conns": k3, "AbortEarly": "FALSE"}, require_actions=LIFE_ACTIONS)
+    ctx.tlc("router", "RouterLifecycle", constants={"Conns": k3, "AbortEarly": "TRUE"},
+            expect_violation="NoAbortBeforeHandlersDown")
+    gen = ctx.tlc("router", "RouterLifecycle", cfg="RouterLifecycle_gen.cfg", mode="gen", constants={"Conns": k3},
+                  require_actions=LIFE_ACTIONS)
+    scen, exp = [], []
+    for b in gen.replays:
+        ops = [{"op": e["op"], "k": e["k"]} for e in b["word"]]
+        order = [o["k"] for o in ops if o["op"] == "dial"]
+        if order != ["k%d" % (i + 1) for i in range(len(order))]:
+            continue                      # one representative per renaming of the connections
+        scen.append({"id": len(scen), "conns": ["k1", "k2", "k3"], "ops": ops})
+        exp.append(b)
+    inp = ctx.write_ndjson("c41-life.in", scen)
+    outp = ctx.path("c41-life.out")
+    ctx.run_bin("vh_router", ["life", "--in", inp, "--out", outp], timeout=3000)
+    obs = ctx.read_ndjson(outp)
+    if len(obs) != len(scen):
+        raise ToolError("life driver returned %d observations for %d schedules" % (len(obs), len(scen)))
+    n = 0
+    for s, b, o in zip(scen, exp, obs):
+        word = " ".join(x["op"] + (":" + x["k"] if x["k"] else "") for x in s["ops"])
+        if o.get("tool_error"):
+            raise ToolError("life driver, schedule '%s': %s" % (word, o["tool_error"]))
+        ctx.count(case_key=["life", word], nontrivial=any(x["op"] == "dial" for x in s["ops"]))
+        r = o["ret"]
+        if not r["returned"]:
+            raise ToolError("schedule '%s': shutdown() did not return (non-conformance)" % word)
+        if not (r["h"] and r["e"]):
+            ctx.report({"kind": "returned_before_handlers_done" if not r["h"] else "returned_before_endpoint_closed",
+                        "caller": "single", "connections_in_flight": True},
+                       "schedule '%s': Router::shutdown returned with handlersDone=%s endpointClosed=%s" % (word, r["h"], r["e"]),
+                       {"life": s["ops"]})
+        if r["live_accepts"]:
+            raise ToolError("non-conformance with RouterLifecycle (ReturnMeansQuiet): schedule '%s': %d accept futures alive "
+                            "when shutdown() returned" % (word, r["live_accepts"]))
+        for c in o["conns"]:
+            want = b["final"][c["k"]]
+            got = ("none" if not c["started"] and c["dial"] == "none" else
+                   "unserved" if not c["started"] and c["dial"] != "ok" else
+                   c["end"] if c["started"] else "dialled_ok_but_no_handler")
+            if got != want:
+                raise ToolError("non-conformance with RouterLifecycle: schedule '%s': connection %s ended as %s, the "
+                                "specification determines %s" % (word, c["k"], got, want))
+            if want == "dropped":
+                if not c["handlers_done_at_end"]:
+                    raise ToolError("non-conformance with RouterLifecycle (NoAbortBeforeHandlersDown): schedule '%s': accept "
+                                    "future of %s was aborted before the handlers' shutdown completed" % (word, c["k"]))
+                if not c["closed_seen"] or not c["handlers_done_at_close"]:
+                    raise ToolError("non-conformance with RouterLifecycle (RouterClosesOnlyAfterDown): schedule '%s': dialer of "
+                                    "%s saw closed=%s with handlersDone=%s" % (word, c["k"], c["closed_seen"], c["handlers_done_at_close"]))
+        n += 1
+    ctx.cov["lifecycle_schedules"] = n
+
+
 def run(ctx):
+    if ctx.replay and "life" in json.load(open(ctx.replay))["replay"]:
+        return lifecycle(ctx)          # re-runs all lifecycle schedules, which include the recorded one
     # 1. the design the property requires holds (all interleavings, liveness); the code-as-written model is refuted
     ctx.tlc("router", "RouterShutdown", constants={"Callers": CALLERS3, "Fixed": "TRUE"},
             require_actions=["LoopCancel", "LoopAcceptNone", "HandlersDown", "EpClose", "Exit", "EndpointCloses",
                              "Start", "Cancel", "Acquire", "Await"])
     ctx.tlc("router", "RouterShutdown", constants={"Callers": CALLERS3, "Fixed": "FALSE"},
             expect_violation="ReturnMeansDone")
+    if not ctx.quick:
+        ctx.tlc("router", "RouterShutdown", constants={"Callers": '{"c1", "c2", "c3", "c4"}', "Fixed": "TRUE"}, timeout=1800)
     # 2. drivable schedules with the observations the required design determines / the as-written model predicts
     gen_fixed = ctx.tlc("router", "RouterShutdown", cfg="RouterShutdown_gen.cfg", mode="gen",
                         constants={"Callers": CALLERS3, "Fixed": "TRUE"},
@@ -174,6 +250,8 @@ def run(ctx):
     if selftests["flipped_observation_rejected"] != selftests["flipped_observation_total"]:
         raise ToolError("binding self-test failed: %s" % selftests)
     ctx.cov["binding_selftests"] = selftests
+    if not ctx.quick and not ctx.replay:
+        lifecycle(ctx)
     ctx.cov["rule"] = ("every drivable schedule of RouterShutdown with 0..3 callers (starts before / while / after the "
                        "handlers shut down, endpoint closed from outside before or during); quick: one representative "
                        "per caller renaming, current-thread runtime; thorough: all schedules on both runtimes; a case is "
